@@ -33,12 +33,14 @@ type fakeRelay struct {
 	seen  []relaySeen
 	// fault decides what happens to the n-th message sent to a stream:
 	// "deliver", "drop", "senderr" (Send fails, message lost), "recverr" (the reader's Recv fails once)
-	fault     func(stream string, n int) string
-	counts    map[string]int
-	recvErr   map[string]int // pending injected receive errors per stream
-	newBox    int
-	streams   int
-	failClose bool // closing a stream reports an error (the stream is closed all the same)
+	fault       func(stream string, n int) string
+	counts      map[string]int
+	recvErr     map[string]int // pending injected receive errors per stream
+	newBox      int
+	streams     int
+	failClose   bool // closing a stream reports an error (the stream is closed all the same)
+	unreachable bool // new send streams cannot be opened
+	failDelOnce bool // the next DelCipherBox call fails
 }
 
 func (r *fakeRelay) setFailClose(v bool) {
@@ -73,8 +75,15 @@ func (r *fakeRelay) NewCipherBox(ctx context.Context, in *hashmailrpc.CipherBoxA
 }
 
 func (r *fakeRelay) DelCipherBox(ctx context.Context, in *hashmailrpc.CipherBoxAuth, _ ...grpc.CallOption) (*hashmailrpc.DelCipherBoxResp, error) {
+	if ctx.Err() != nil {
+		return nil, ctx.Err()
+	}
 	r.mu.Lock()
 	defer r.mu.Unlock()
+	if r.failDelOnce {
+		r.failDelOnce = false
+		return nil, errors.New("injected delete failure")
+	}
 	delete(r.boxes, string(in.Desc.StreamId))
 	return &hashmailrpc.DelCipherBoxResp{}, nil
 }
@@ -138,7 +147,11 @@ func (s *relaySend) Send(b *hashmailrpc.CipherBox) error {
 func (r *fakeRelay) SendStream(ctx context.Context, _ ...grpc.CallOption) (hashmailrpc.HashMail_SendStreamClient, error) {
 	r.mu.Lock()
 	r.streams++
+	down := r.unreachable
 	r.mu.Unlock()
+	if down {
+		return nil, errors.New("relay unreachable")
+	}
 	return &relaySend{dummyStream: dummyStream{ctx}, r: r}, nil
 }
 
